@@ -472,6 +472,22 @@ impl ContinuityStore {
             return Ok(events);
         }
 
+        // The sidecar is missing or unreadable, possibly only because an append is in flight.
+        // The fallback rewrites it from what this reader saw of the truth log: interleaved with
+        // appends it would roll the sidecar back behind frames already appended and broadcast,
+        // and later readers (a subscriber attaching, a status call) would trust the stale file.
+        // Appends hold the seq lock across log append, sidecar append and broadcast, so the
+        // fallback runs under that lock.
+        let _appends_paused = self.next_seq.lock().expect("continuity seq mutex");
+        self.replay_events_rebuilding(continuity_id)
+    }
+
+    /// Replay with the truth-log fallback that rebuilds the sidecar. The caller holds the seq lock.
+    fn replay_events_rebuilding(&self, continuity_id: &str) -> io::Result<Vec<Event>> {
+        if let Ok(Some(events)) = self.stream_cache.try_replay(continuity_id) {
+            return Ok(events);
+        }
+
         let events = self
             .event_log
             .replay_stream(StreamKind::Continuity, continuity_id)?;
@@ -3553,7 +3569,7 @@ impl ContinuityStore {
             return Ok(last_seq.saturating_add(1));
         }
 
-        let events = self.replay_events(continuity_id)?;
+        let events = self.replay_events_rebuilding(continuity_id)?;
         let last = events.last().ok_or_else(|| {
             io::Error::new(io::ErrorKind::NotFound, "continuity stream does not exist")
         })?;
